@@ -39,6 +39,9 @@ def run(repo, run, tier):
     # kept between calls are written in place by the next call, also through a shallow copy of the system that still shares them
     from .c12 import trim
     trim(repo, run, m, rule_id="C03.14")
+    # 'times and states stay paired one-to-one': len(system) counts exactly those pairs at every moment (a fresh system, inside a callback), not the allocated rows
+    from .c19 import length
+    length(repo, run, rule_id="C03.15")
     # 'ends at the target', also through the facade and for decreasing spans: the step-clipping callback of solve_ivp keeps the SIGN of the step (a signed clip into
     # [min_step, max_step] turns a negative step into 0, and integrate()'s `dt != 0` guard then ends the run one step after t0, reporting success)
     from .c18 import clipping
@@ -437,9 +440,9 @@ def orientation(repo, run, m):
                        text="dt orientation at `%s`" % src(node)[:100])
 
 
-def restore(repo, run, m):
+def restore(repo, run, m, rule_id="C03.6"):
     """events branch: the step that was rolled back for the event search is re-committed with exactly the values it had"""
-    rid = run.rule("C03.6", "when events are tracked the rolled-back step is re-committed with the time and state saved from the committed row "
+    rid = run.rule(rule_id, "when events are tracked the rolled-back step is re-committed with the time and state saved from the committed row "
                             "(next_time = t[counter], next_state = y[counter], read after the commit and before the rollback), followed by counter += 1", floor=2)
     from ..imodel import path_key
     restores = [w for w in m.row_writes if w is not m.commit_t and w is not m.commit_y]
@@ -460,14 +463,14 @@ def restore(repo, run, m):
                 ok = path_key(m.commit_inc, m.fn) < k and all(k < path_key(d, m.fn) for d in decs) and k < path_key(w, m.fn)
         run.judged(rid, "re-commit %s from `%s`" % (src(w.targets[0]), src(v)), ok=ok)
         if not ok:
-            run.report("C03.6", DS, w, "the row re-committed after the event search is not the saved committed row (self.%s[counter] read after the commit and before the "
+            run.report(rule_id, DS, w, "the row re-committed after the event search is not the saved committed row (self.%s[counter] read after the commit and before the "
                                        "rollback): times and states would no longer pair up when events are tracked" % buf)
     incs_after = [i for i in m.counter_incs if isinstance(i.op, ast.Add) and i is not m.commit_inc and any(
         i._parent is w._parent for w in restores)]
     ok = len(incs_after) == 1 and all(path_key(w, m.fn) < path_key(incs_after[0], m.fn) for w in restores)
     run.judged(rid, "re-commit followed by counter += 1 in the same block", ok=ok)
     if not ok:
-        run.report("C03.6", DS, restores[0], "the re-committed row is not followed by `counter += 1` in the same block", text="re-commit increment")
+        run.report(rule_id, DS, restores[0], "the re-committed row is not followed by `counter += 1` in the same block", text="re-commit increment")
 
 
 def exits(repo, run, m, rule_id="C03.7"):
